@@ -203,6 +203,25 @@ def c03(mon, s):
     if ec.ccexplfixed.Valid and ec.ccexplfixed.Provided and not ec.totalcapcost.Valid:
         mon.eq('user-component-used', comp['Cexpl'], float(ec.ccexplfixed.value),
                mechanism='C03/user-fixed-component-not-used:Cexpl', which='Cexpl')
+    # ---- end-use equipment figures supplied directly (absorption chiller, heat pump): the figure the user wrote is the one in use
+    if eu == 2 and not sbt:
+        for pname, attr, need_pt, when in (('Absorption Chiller Capital Cost', 'chillercapex', 5, not ec.ccplantfixed.Valid and not ec.totalcapcost.Valid),
+                                           ('Heat Pump Capital Cost', 'heatpumpcapex', 6, not ec.ccplantfixed.Valid and not ec.totalcapcost.Valid),
+                                           ('Absorption Chiller O&M Cost', 'chilleropex', 5, not ec.oamtotalfixed.Valid)):
+            txt = s.input_values.get(pname)
+            if pt != need_pt or txt is None or not when or not ec.has(attr):
+                continue
+            parts = str(txt).split()
+            if len(parts) != 1:
+                continue                                    # written with a unit: C06's business
+            try:
+                supplied = float(parts[0])
+            except ValueError:
+                continue
+            if supplied < 0:
+                continue                                    # the documented "not provided" sentinel
+            mon.eq('user-component-used', float(getattr(ec, attr).value), supplied, rel=1e-12,
+                   mechanism='C03/user-fixed-component-not-used:' + attr, which=pname, supplied=supplied)
     # ---- wellfield
     c1p, c1i = float(ec.cost_one_production_well.value), float(ec.cost_one_injection_well.value)
     lat = float(ec.cost_lateral_section.value) if ec.has('cost_lateral_section') else 0.0
